@@ -22,7 +22,8 @@ STATES = ["BEFORE_OPEN", "BINDING", "OPENED", "CLOSED"]
 
 CLIENT_OPS = ["bind_simple", "bind_sasl", "search", "extended", "unbind", "drain", "drain_none",
               "recv_bind_response", "recv_search_entry", "recv_search_reference", "recv_search_done",
-              "recv_extended_response", "recv_notice", "recv_extended_request", "recv_unbind"]
+              "recv_extended_response", "recv_notice", "recv_extended_request", "recv_unbind",
+              "recv2_extended_response", "recv2_search_done"]
 SERVER_OPS = ["bind_response", "extended_response", "notice", "search_entry", "search_reference", "search_done",
               "unbind", "drain", "drain_none",
               "recv_bind_request", "recv_search_request", "recv_extended_request", "recv_unbind", "recv_extended_response"]
@@ -250,6 +251,13 @@ def do_op(ctx, sess, side, op, tag):
             info["ret"] = sess.data_to_send()
         elif op == "unbind":
             info["ret"] = sess.unbind()
+        elif op.startswith("recv2_"):
+            # the same final response twice in ONE delivery (a duplicate for an id that the first copy completes)
+            mid = ctx.int(f"{tag}.mid", 0, IDMAX + 2)
+            code = ctx.int(f"{tag}.code", 0, 80)
+            info["mid"], info["code"] = mid, code
+            one = message_for(ctx, "recv_" + op[6:], mid, code).pack(po(ctx))
+            info["ret"] = sess.receive(one + one)
         elif op.startswith("recv_"):
             mid = ctx.int(f"{tag}.mid", 0, IDMAX + 2)
             code = ctx.int(f"{tag}.code", 0, 80)
@@ -338,7 +346,7 @@ def check_step(ctx, side, pre, info, post, props, tag=""):
         # ---- C10: refusal has no wire effect and uses the library's own error type
         if not is_ldap_error(ctx, exc):
             fail("C10", "call-fails-with-foreign-exception", f"{info['exc_name']}@{info['exc_site']}")
-        if not op.startswith("recv_"):
+        if not op.startswith("recv"):
             req("C10", len(appended) == 0, "refused-call-left-bytes-queued:" + op)
             req("C12", len(appended) == 0, "failed-send-contributes-bytes-to-the-stream:" + op)
             if pre["state"] != "CLOSED":
@@ -348,7 +356,7 @@ def check_step(ctx, side, pre, info, post, props, tag=""):
         req("C08", rejected, "closed-session-accepted:" + op)
         req("C08", post["state"] == "CLOSED", "closed-session-left-closed:" + op)
         req("C08", len(appended) == 0, "closed-session-produced-bytes:" + op)
-        if op.startswith("recv_") and rejected:
+        if op.startswith("recv") and rejected:
             req("C08", info["exc_name"] == "ProtocolError", "closed-receive-error-type")
         return
     if side == "client":
@@ -407,6 +415,13 @@ def _client(ctx, pre, info, post, appended, rejected, req, fail, props):
                 fail("C08", "unbind-emits-nothing")
         return
     # ---- receive
+    if op.startswith("recv2_"):
+        req("C10", len(appended) == 0, "receive-queued-bytes")
+        if op == "recv2_extended_response" and ctx.is_true(in_set(ctx, info["mid"], S)):
+            return  # a non-search response carrying a search's id: not specified
+        req("C09", rejected, "duplicate-response-in-one-delivery-accepted")
+        req("C08", post["state"] == "CLOSED", "not-closed-after-protocol-error")
+        return
     k = op[5:]
     x = info["mid"]
     req("C10", len(appended) == 0, "receive-queued-bytes")
@@ -422,7 +437,11 @@ def _client(ctx, pre, info, post, appended, rejected, req, fail, props):
     in_S = in_set(ctx, x, S)
     if ctx.is_true(in_O):
         if ctx.is_true(in_S) and k not in ("search_entry", "search_reference", "search_done"):
-            return  # a non-search response carrying a search id: not specified
+            # a non-search response carrying a search's id: whether it is accepted is not
+            # specified, but a search is only completed by its done message
+            if not rejected:
+                req("C09", ctx.all(set_eq(ctx, post["O"], O), set_eq(ctx, post["S"], S)), "search-retired-by-a-message-other-than-done")
+            return
         req("C09", not rejected, "response-for-operation-in-progress-rejected")
         if rejected:
             return
